@@ -217,7 +217,7 @@ open XixiKV.C01 in
     configurations (different `fileSize`, `sync`, `bps`, `idx`, `io`, `shards`), any two
     directories — answer every list of puts / deletes / gets / syncs identically and end up
     denoting the same mapping. -/
-theorem C14_limits_only_layout (dir₁ dir₂ : String) (c₁ c₂ : Cfg) (h₁ : c₁.fileSize > 0) (h₂ : c₂.fileSize > 0)
+theorem C14_limits_only_layout (dir₁ dir₂ : String) (c₁ c₂ : Cfg) (h₁ : c₁.Valid) (h₂ : c₂.Valid)
     (ops : List Op) (hok : ∀ op ∈ ops, OpOK op) :
     (run (openDB St.init dir₁ c₁).1 ops).2 = (run (openDB St.init dir₂ c₂).1 ops).2 ∧
     absOf (run (openDB St.init dir₁ c₁).1 ops).1 = absOf (run (openDB St.init dir₂ c₂).1 ops).1 := by
@@ -252,7 +252,7 @@ def Good (dir : String) (s : St) (m : Spec) : Prop :=
   (s = St.init ∧ m = specEmpty) ∨
   (∃ db g, s.db = some db ∧ Inv s db g ∧ db.dir = dir ∧ s.world.get (mergeDirName dir) = none ∧ absOf s = m)
 
-theorem Good_open {dir : String} {s : St} {m : Spec} (h : Good dir s m) (c : Cfg) (hc : c.fileSize > 0) :
+theorem Good_open {dir : String} {s : St} {m : Spec} (h : Good dir s m) (c : Cfg) (hc : c.Valid) :
     ∃ db g, (C02.restart s dir c).db = some db ∧ Inv (C02.restart s dir c) db g ∧ db.dir = dir ∧
       (C02.restart s dir c).world.get (mergeDirName dir) = none ∧ absOf (C02.restart s dir c) = m := by
   rcases h with ⟨rfl, rfl⟩ | ⟨db, g, hs, hi, hd, hnm, ha⟩
@@ -286,7 +286,7 @@ theorem Good_run {dir : String} {s : St} {db : DB} {g : GDir} {m : Spec} (hs : s
     exact hnm
 
 theorem runSegs_spec (dir : String) : ∀ (segs : List (Cfg × List Op)) {s : St} {m : Spec}, Good dir s m →
-    (∀ x ∈ segs, x.1.fileSize > 0 ∧ ∀ op ∈ x.2, OpOK op) →
+    (∀ x ∈ segs, x.1.Valid ∧ ∀ op ∈ x.2, OpOK op) →
     (runSegs dir s segs).2 = (specSegs m (segs.map (·.2))).2 ∧
     (segs ≠ [] → ∃ db g, (runSegs dir s segs).1.db = some db ∧ Inv (runSegs dir s segs).1 db g) ∧
     (segs ≠ [] → absOf (runSegs dir s segs).1 = (specSegs m (segs.map (·.2))).1) := by
@@ -330,8 +330,8 @@ theorem runSegs_spec (dir : String) : ∀ (segs : List (Cfg × List Op)) {s : St
     (`specSegs`) — and the finally recovered mappings are equal. -/
 theorem C14_limits_only_layout_restarts (dir₁ dir₂ : String) (segs₁ segs₂ : List (Cfg × List Op))
     (hsame : segs₁.map (·.2) = segs₂.map (·.2))
-    (h₁ : ∀ x ∈ segs₁, x.1.fileSize > 0 ∧ ∀ op ∈ x.2, OpOK op)
-    (h₂ : ∀ x ∈ segs₂, x.1.fileSize > 0 ∧ ∀ op ∈ x.2, OpOK op) :
+    (h₁ : ∀ x ∈ segs₁, x.1.Valid ∧ ∀ op ∈ x.2, OpOK op)
+    (h₂ : ∀ x ∈ segs₂, x.1.Valid ∧ ∀ op ∈ x.2, OpOK op) :
     (runSegs dir₁ St.init segs₁).2 = (runSegs dir₂ St.init segs₂).2 ∧
     (runSegs dir₁ St.init segs₁).2 = (specSegs specEmpty (segs₁.map (·.2))).2 ∧
     (segs₁ ≠ [] → absOf (runSegs dir₁ St.init segs₁).1 = absOf (runSegs dir₂ St.init segs₂).1) := by
@@ -357,9 +357,9 @@ open XixiKV.C05
     the staging area is flushed and the file rotated in the middle of the batch and under the other
     it is not — the final mappings are equal, and so are the mappings recovered by a clean restart
     under any further configurations. -/
-theorem C14_limits_only_layout_batch (dir₁ dir₂ : String) (c₁ c₂ : Cfg) (h₁ : c₁.fileSize > 0) (h₂ : c₂.fileSize > 0)
+theorem C14_limits_only_layout_batch (dir₁ dir₂ : String) (c₁ c₂ : Cfg) (h₁ : c₁.Valid) (h₂ : c₂.Valid)
     (sync₁ sync₂ : Bool) (id₁ id₂ : Nat) (hid₁ : 0 < id₁ ∧ id₁ < 2 ^ 63) (hid₂ : 0 < id₂ ∧ id₂ < 2 ^ 63)
-    (ops : List BOp) (hok : ∀ op ∈ ops, BOpOK op) (c₃ c₄ : Cfg) (h₃ : c₃.fileSize > 0) (h₄ : c₄.fileSize > 0) :
+    (ops : List BOp) (hok : ∀ op ∈ ops, BOpOK op) (c₃ c₄ : Cfg) (h₃ : c₃.Valid) (h₄ : c₄.Valid) :
     (runBatch (openDB St.init dir₁ c₁).1 sync₁ id₁ ops).2 = (runBatch (openDB St.init dir₂ c₂).1 sync₂ id₂ ops).2 ∧
     C01.absOf (runBatch (openDB St.init dir₁ c₁).1 sync₁ id₁ ops).1
       = C01.absOf (runBatch (openDB St.init dir₂ c₂).1 sync₂ id₂ ops).1 ∧
@@ -479,10 +479,10 @@ example (k v w : ByteArray) (hk0 : k.size ≠ 0) (hk : k.size < 2 ^ 31) (hv : v.
   have hsz : ∀ x ∈ ([({ fileSize := 1, sync := 1, bps := 0, idx := 0, io := 0, shards := 1 }, [.put k v, .get k]),
        ({ fileSize := 4096, sync := 0, bps := 0, idx := 1, io := 1, shards := 8 }, [.get k, .put k w]),
        ({ fileSize := 77, sync := 2, bps := 100, idx := 2, io := 0, shards := 1024 }, [.get k, .del k, .get k])]
-       : List (Cfg × List C01.Op)), x.1.fileSize > 0 ∧ ∀ op ∈ x.2, C01.OpOK op := by
+       : List (Cfg × List C01.Op)), x.1.Valid ∧ ∀ op ∈ x.2, C01.OpOK op := by
     intro x hx
     simp only [List.mem_cons, List.not_mem_nil, or_false] at hx
-    rcases hx with rfl | rfl | rfl <;> refine ⟨by simp, ?_⟩ <;> intro op hop <;>
+    rcases hx with rfl | rfl | rfl <;> refine ⟨by simp [Cfg.Valid], ?_⟩ <;> intro op hop <;>
       simp only [List.mem_cons, List.not_mem_nil, or_false] at hop <;>
       rcases hop with rfl | rfl | rfl <;> simp [C01.OpOK, hk, hv, hw]
   rw [(C14_limits_only_layout_restarts "a" "a" _ _ rfl hsz hsz).2.1]
